@@ -68,9 +68,10 @@ def cplace128odd(rnd):
     return rnd.choice((0x4000, 0x7FFC, 0xC000, 0xFFFC, 0xFFFF, 0xBFFF, rnd.randrange(0xC000, 0xFFF0), rnd.randrange(0x4000, 0x7FF0)))
 
 
-def make_case(slot, rnd, variant, boundary=None, lay=L48):
+def make_case(slot, rnd, variant, boundary=None, lay=L48, wrap=False):
     """boundary = index into BOUNDARY_T: everything the instruction touches is placed in contended
-    memory and it starts right at the edge of the window in which contention is computed."""
+    memory and it starts right at the edge of the window in which contention is computed.
+    wrap: the instruction straddles 0xFFFF -> 0x0000 (its later bytes come from ROM) inside the contended part of a line."""
     lead, name = slot
     if lay['m128']:
         place_ = (cplace128odd if lay['odd'] else cplace) if boundary is not None else place128
@@ -110,6 +111,12 @@ def make_case(slot, rnd, variant, boundary=None, lay=L48):
         regs[B], regs[C] = bc >> 8, bc & 255
     if lead[0] == 0x10 and rnd.random() < 0.5:
         regs[B] = rnd.choice((0, 1, 2))
+    if wrap:
+        from . import z80len
+        ln = z80len.length(ins + [0, 0], 0)
+        pc = (0x10000 - rnd.randrange(1, max(2, ln))) % 65536
+        regs[PC] = pc
+        regs[T] = lay['first'] + lay['line'] * rnd.randrange(0, 192) + rnd.randrange(0, 128) + lay['frame'] * rnd.randrange(2)
     ov = [[(pc + i) % 65536, b] for i, b in enumerate(ins)]
     inv = rnd.choice((-1, simdrv.r8(rnd)))
     return {'key': '%s/%d' % (name, variant), 'r': regs, 'ov': ov, 'inv': inv, 'frame': lay['frame'], 'ia': lay['ia'],
@@ -133,6 +140,9 @@ def gen_and_run(args):
             c = make_case(sl[i], rnd, 1000 + bi, boundary=bi)
             c['obs'] = [im.run_case(c) for im in ims]
             cases.append(c)
+        c = make_case(sl[i], rnd, 1900, wrap=True)
+        c['obs'] = [im.run_case(c) for im in ims]
+        cases.append(c)
     return cases
 
 
@@ -154,6 +164,11 @@ def gen_and_run128(args):
                 c = make_case(sl[i], rnd, 2000 + 100 * li + v, lay=lay)
                 c['obs'] = [im.run_case(c) for im in ims]
                 cases.append(c)
+            if lay['odd']:
+                for w in range(2 if li == 0 else 1):
+                    c = make_case(sl[i], rnd, 3900 + 10 * li + w, lay=lay, wrap=True)
+                    c['obs'] = [im.run_case(c) for im in ims]
+                    cases.append(c)
             if li < 2:
                 for bi in (range(8) if lay['odd'] else (1, 5)):
                     c = make_case(sl[i], rnd, 3000 + 100 * li + bi, boundary=bi, lay=lay)
